@@ -4,6 +4,7 @@ import Ccp.Proofs.EditFrame
 import Ccp.Proofs.EditMulti
 import Ccp.Proofs.EditPrefix
 import Ccp.Proofs.EditBanner
+import Ccp.Proofs.EditForms
 /-!
 # C06 — edits change exactly the targeted lines
 
@@ -29,7 +30,12 @@ Property theorems only; helper lemmas and the specification vocabulary live in
 * the vocabulary of the second part on parent links (`PlainCommitted`, `PlainPayload`, `capturedBy`,
   `InsertFrame`, `MultiFrame`, `shiftAt`, `noIg`) is introduced where that part begins.
 
-All theorems are about `Ccp.Model.Edit.step`, for all states and payloads.  A state holds
+The last part is about `Ccp.Model.EditForms.stepX`: the other forms in which the editing calls take
+their arguments (a `BaseCfgLine` for a text, a foreign line object as pattern), the rejections of
+values that are neither, `ConfigList.remove`, a second `delete()` through a stale handle,
+`factory=True` (`stepF`), and `classify_family_indent` called directly.
+
+All other theorems are about `Ccp.Model.Edit.step`, for all states and payloads.  A state holds
 a list of items (text + identity: the committed line number of the object, `none` for a
 line created since the last commit); `s.texts` is the list of their texts.  An object
 handle `h` is a committed line number.  The operations that find their object by
@@ -1405,5 +1411,332 @@ example : ClosedAt exBanner.cfg exBanner.texts 4 := closedAt_of_check _ _ _ (by 
 /-- inside the body the hypothesis fails and so does the conclusion: a line holding the
 delimiter ends the banner early, the lines behind it leave the family -/
 example : (step exBanner (.objInsBefore 2 "^".toList)).1.tree.parents = [0, 0, 0, 3, 4, 5, 5] := by decide
+
+/-! ## the other input forms of the editing calls, their rejections, `remove`, a stale handle
+
+`Ccp.Model.EditForms`: `stepX` takes the arguments in the forms the code accepts — a line text
+as a `str` (`Arg.str`) or as a `BaseCfgLine` that is not an element of the list (`Arg.line`), any
+other value (`Arg.other`) — and mirrors the order of the checks of each entry point.  The theorems
+say how every form reduces to `step`, so that everything proved above carries over. -/
+
+/-- **A `BaseCfgLine` payload is its text**: `ConfigList.insert`, `obj.insert_before/after` and
+`append_to_family` do with a line object exactly what they do with the `str` of its text. -/
+theorem line_payload_is_text (s : S) (t : Str) (k : Int) (h : Nat) (ind : Int) (ai : Bool) :
+    stepX s (.insertA (some k) (.line t)) = liftR (step s (.insert k t)) ∧
+    stepX s (.insertA (some k) (.str t)) = liftR (step s (.insert k t)) ∧
+    stepX s (.objInsBeforeA h (.line t)) = liftR (step s (.objInsBefore h t)) ∧
+    stepX s (.objInsBeforeA h (.str t)) = liftR (step s (.objInsBefore h t)) ∧
+    stepX s (.objInsAfterA h (.line t)) = liftR (step s (.objInsAfter h t)) ∧
+    stepX s (.objInsAfterA h (.str t)) = liftR (step s (.objInsAfter h t)) ∧
+    stepX s (.appendToFamilyL h t ind ai) = liftR (step s (.appendToFamily h t ind ai)) :=
+  ⟨rfl, rfl, rfl, rfl, rfl, rfl, rfl⟩
+
+/-- **list-level `insert_before/after`, both arguments as `str`**: the operation of the first part
+(`listInsertBefore_spec`, `listInsertAfter_spec`, `listInsert_errors`), the empty-regex flag being
+"the pattern is the empty string". -/
+theorem listInsert_str_forms (s : S) (p : Str) (row : List Bool) (t : Str) :
+    stepX s (.listInsBeforeA (.str p) row (.str t)) = liftR (step s (.listInsBefore p.isEmpty row t)) ∧
+    stepX s (.listInsAfterA (.str p) row (.str t)) = liftR (step s (.listInsAfter p.isEmpty row t)) := by
+  constructor <;>
+  · simp only [stepX, listInsA, Edit.step, Arg.text?, listInsCore, liftR]
+    by_cases h1 : (isBlank t && s.cfg.ignoreBlank) = true
+    · simp [h1]
+    · by_cases h2 : p.isEmpty = true <;> simp [h1, h2]
+
+/-- **a `BaseCfgLine` that is not in the list as `exist_val`**: its text is the regular expression
+(`row` = the lines it matches) — also when that text is empty, which a `str` pattern may not be. -/
+theorem listInsert_foreign_pattern (s : S) (p : Str) (row : List Bool) (t : Str) :
+    stepX s (.listInsBeforeA (.line p) row (.str t)) = liftR (step s (.listInsBefore false row t)) ∧
+    stepX s (.listInsAfterA (.line p) row (.str t)) = liftR (step s (.listInsAfter false row t)) := by
+  constructor <;>
+  · simp only [stepX, listInsA, Edit.step, Arg.text?, listInsCore, liftR]
+    by_cases h1 : (isBlank t && s.cfg.ignoreBlank) = true <;> simp [h1]
+
+/-- **a `BaseCfgLine` as `new_val` of a list-level insert**: the same as the `str` of its text,
+whatever the pattern form — unless it is a blank line under `ignore_blank_lines`: the guard that
+refuses such a `str` (`InvalidParameters`) looks at `str` payloads only, the line object is
+inserted … -/
+theorem listInsert_line_payload (s : S) (after : Bool) (pat : Arg) (row : List Bool) (t : Str) :
+    (¬ (isBlank t = true ∧ s.cfg.ignoreBlank = true) →
+      listInsA after s pat row (.line t) = listInsA after s pat row (.str t)) ∧
+    (isBlank t = true ∧ s.cfg.ignoreBlank = true →
+      listInsA after s pat row (.str t) = (s, .error (.base .invalidParameters)) ∧
+      (pat = .line [] ∨ (∃ p, pat = .line p) ∨ (∃ p, pat = .str p ∧ p ≠ []) →
+        listInsA after s pat row (.line t) = listInsCore after s row t)) := by
+  constructor
+  · intro hb
+    have hb' : (isBlank t && s.cfg.ignoreBlank) = false := by
+      cases h1 : isBlank t <;> cases h2 : s.cfg.ignoreBlank <;> simp_all
+    simp only [listInsA, hb', Arg.text?]
+  · rintro ⟨h1, h2⟩
+    refine ⟨by simp [listInsA, h1, h2], ?_⟩
+    rintro (rfl | ⟨p, rfl⟩ | ⟨p, rfl, hp⟩)
+    · simp [listInsA, Arg.text?]
+    · simp [listInsA, Arg.text?]
+    · cases p with
+      | nil => exact absurd rfl hp
+      | cons c cs => simp [listInsA, Arg.text?]
+
+/-- … and on a committed state over a config without banner / macro starts (auto-commit on) the
+commit that follows drops every copy again: texts and tree are what they were. -/
+theorem listInsert_blank_line_dropped (s : S) (after : Bool) (row : List Bool) (t : Str) (hc : PlainCommitted s)
+    (hi : s.cfg.ignoreBlank = true) (hbl : isBlank t = true)
+    (hb : isBannerStart t = false) (hm : s.cfg.ios = true → isMacroStart t = false) :
+    (listInsCore after s row t).1.texts = s.texts ∧ (listInsCore after s row t).1.tree = s.tree :=
+  auto_listIns_blank_noop s after row t hc hi hbl hb hm
+
+/-- **Rejections**: a value that is neither a `str` nor a `BaseCfgLine` where a line text is
+expected, an index that is not an `int`, a pattern that is neither — each is refused with the
+exception class of its entry point (`ConfigList.insert`: `ValueError` for the index, checked
+first, `TypeError` for the value; `obj.insert_before/after`: `NotImplementedError`; list-level
+`insert_before/after`: `ValueError`; `ConfigList.remove`: `InvalidParameters` for a non-line,
+`ValueError` for a line that is not in the list) and the whole state is unchanged. -/
+theorem malformed_rejected (s : S) (k : Int) (v pat : Arg) (h p : Nat) (row : List Bool) (after : Bool) :
+    stepX s (.insertA none v) = (s, .error (.base .valueError)) ∧
+    stepX s (.insertA (some k) .other) = (s, .error .typeError) ∧
+    (posOf s.items h = some p →
+      stepX s (.objInsBeforeA h .other) = (s, .error (.base .notImplemented)) ∧
+      stepX s (.objInsAfterA h .other) = (s, .error (.base .notImplemented))) ∧
+    listInsA after s pat row .other = (s, .error (.base .valueError)) ∧
+    ((∀ t, v = .str t → ¬ (isBlank t = true ∧ s.cfg.ignoreBlank = true)) →
+      listInsA after s .other row v = (s, .error (.base .valueError)) ∧
+      listInsA after s (.str []) row v = (s, .error (.base .valueError))) ∧
+    stepX s (.remove .foreign) = (s, .error (.base .valueError)) ∧
+    stepX s (.remove .other) = (s, .error (.base .invalidParameters)) := by
+  refine ⟨rfl, rfl, fun hp => ?_, ?_, fun hv => ?_, rfl, rfl⟩
+  · simp [stepX, Arg.text?, hp]
+  · cases pat with
+    | str q => cases q <;> simp [listInsA, Arg.text?]
+    | line q => simp [listInsA, Arg.text?]
+    | other => simp [listInsA]
+  · cases v with
+    | str t =>
+      have hb' : (isBlank t && s.cfg.ignoreBlank) = false := by
+        have := hv t rfl
+        cases h1 : isBlank t <;> cases h2 : s.cfg.ignoreBlank <;> simp_all
+      simp [listInsA, hb']
+    | line t => simp [listInsA]
+    | other => simp [listInsA]
+
+/-- **Every refused call leaves the whole state unchanged** — for the extended calls too; the one
+exception is the double delete, whose first `delete()` has happened when the second is refused. -/
+theorem errorsX_leave_state (s : S) (op : OpX) (e : ErrX) (h : (stepX s op).2 = .error e) :
+    (stepX s op).1 = s ∨ ∃ i, op = .deleteTwice i ∧ (stepX s op).1 = (step s (.delete i)).1 := by
+  have lift : ∀ o : Op, (liftR (step s o)).2 = .error e → (liftR (step s o)).1 = s := by
+    intro o ho
+    cases hr : (step s o).2 with
+    | ok u => simp [liftR, hr] at ho
+    | error e' => exact step_error_unchanged s o e' hr
+  cases op with
+  | base o => exact .inl (lift o h)
+  | insertA k v =>
+    cases k with
+    | none => exact .inl rfl
+    | some k => cases v with
+      | str t => exact .inl (lift _ h)
+      | line t => exact .inl (lift _ h)
+      | other => exact .inl rfl
+  | objInsBeforeA i v =>
+    cases v with
+    | str t => exact .inl (lift _ h)
+    | line t => exact .inl (lift _ h)
+    | other => left; simp only [stepX, Arg.text?]; split <;> rfl
+  | objInsAfterA i v =>
+    cases v with
+    | str t => exact .inl (lift _ h)
+    | line t => exact .inl (lift _ h)
+    | other => left; simp only [stepX, Arg.text?]; split <;> rfl
+  | listInsBeforeA pat row v =>
+    left; revert h; simp only [stepX, listInsA, listInsCore]
+    repeat' split
+    all_goals first | exact fun _ => rfl | (intro h; cases h)
+  | listInsAfterA pat row v =>
+    left; revert h; simp only [stepX, listInsA, listInsCore]
+    repeat' split
+    all_goals first | exact fun _ => rfl | (intro h; cases h)
+  | appendToFamilyL i t ind ai => exact .inl (lift _ h)
+  | remove v =>
+    cases v with
+    | member i => exact .inl (lift _ h)
+    | foreign => exact .inl rfl
+    | other => exact .inl rfl
+  | deleteTwice i =>
+    right; refine ⟨i, rfl, ?_⟩
+    revert h; simp only [stepX]
+    repeat' split
+    all_goals first | exact fun _ => rfl | (intro h; cases h)
+
+/-- **`ConfigList.remove(obj)`** for an object of the list is `obj.delete()` at list level: the
+line and all its descendants go, nothing else — `delete_spec`, `delete_spec_forest` and
+`delete_keeps_parents_full` read for `remove`. -/
+theorem remove_is_delete (s : S) (i : Nat) :
+    stepX s (.remove (.member i)) = liftR (step s (.delete i)) := rfl
+
+theorem remove_spec (s : S) (i : Nat) (hnf : NoFilter s) (hd : s.dirty = false) (hi : i < s.texts.length)
+    (hf : Forest s.tree) (hsz : s.tree.size = s.texts.length) :
+    (stepX s (.remove (.member i))).2 = .ok () ∧
+    (stepX s (.remove (.member i))).1.texts
+      = (s.texts.zipIdx.filter (fun p => decide (p.2 ≠ i ∧ i ∉ ancestors s.tree p.2))).map (·.1) ∧
+    (stepX s (.remove (.member i))).1.texts.length + 1 + (allChildren s.tree i).length = s.texts.length ∧
+    ((stepX s (.remove (.member i))).1.texts).Sublist s.texts := by
+  obtain ⟨h1, _, h3⟩ := delete_spec s i hnf hd hi
+  obtain ⟨h4, h5⟩ := delete_spec_forest s i hnf hd hi hf hsz
+  refine ⟨?_, h4, h5, h3⟩
+  show (liftR (step s (.delete i))).2 = .ok ()
+  simp [liftR, h1]
+
+/-- **`delete()` twice through the same handle** (the handle keeps its old line number, text and
+descendants).  `s`: no uncommitted change, C07's invariant, `i` a line.  With `s1` the state after
+the first delete and `dead` = `i` and its old descendants:
+* auto-commit off: the second call is always refused (`ConfigListItemDoesNotExist`), `s1` stays;
+* auto-commit on: it is refused in the same way unless the line now at number `i` has the text
+  the deleted line had; if it has, the stale line numbers `dead` are deleted once more — or, when
+  one of them is past the end, the call is an `IndexError` and `s1` stays. -/
+theorem deleteTwice_spec (s : S) (i : Nat) (hd : s.dirty = false) (hinv : FreshInv s) (hi : i < s.texts.length) :
+    let s1 := (step s (.delete i)).1
+    let dead := descendantsAndSelf s.tree i
+    (s.auto = false → stepX s (.deleteTwice i) = (s1, .error (.base .doesNotExist))) ∧
+    (s.auto = true → s1.texts[i]? ≠ some (s.texts.getD i []) →
+      stepX s (.deleteTwice i) = (s1, .error (.base .doesNotExist))) ∧
+    (s.auto = true → s1.texts[i]? = some (s.texts.getD i []) →
+      (dead.any (fun j => j ≥ s1.texts.length) = true →
+        stepX s (.deleteTwice i) = (s1, .error (.base .indexError))) ∧
+      (dead.any (fun j => j ≥ s1.texts.length) = false →
+        stepX s (.deleteTwice i)
+          = (autoCommit { s1 with items := eraseAll s1.items dead, dirty := true }, .ok ()))) := by
+  intro s1 dead
+  have hg : ¬ (s.dirty = true ∨ s.items.length ≤ i) := by rw [hd, ← texts_length]; simp; omega
+  have hok : (step s (.delete i)).2 = .ok () := by simp [Edit.step, hg]
+  have hs1 : s1 = autoCommit { s with items := eraseAll s.items dead, dirty := true } := by
+    simp [s1, dead, Edit.step, hg]
+  have hitems : s.items = committedItems s.tree := (hinv hd).2.2
+  have hunf : stepX s (.deleteTwice i)
+      = if !presentEq s1.items i (s.texts.getD i []) then (s1, .error (.base .doesNotExist))
+        else if dead.any (fun j => j ≥ s1.items.length) then (s1, .error (.base .indexError))
+        else (autoCommit { s1 with items := eraseAll s1.items dead, dirty := true }, .ok ()) := by
+    simp only [stepX, hok]; rfl
+  have hcom : s.auto = true → s1.items = committedItems s1.tree := by
+    intro ha
+    have hon : s1 = commit { s with items := eraseAll s.items dead, dirty := true } := by
+      rw [hs1]; exact autoCommit_on _ ha
+    rw [hon]; rfl
+  refine ⟨fun ha => ?_, fun ha hne => ?_, fun ha heq => ?_⟩
+  · have : s1.items = eraseAll (committedItems s.tree) dead := by
+      have hoff : s1 = { s with items := eraseAll s.items dead, dirty := true } := by
+        rw [hs1]; exact autoCommit_off _ ha
+      rw [hoff, hitems]
+    rw [hunf, this, presentEq_eraseAll_committed s.tree dead i _ (by simp [dead, descendantsAndSelf])]
+    rfl
+  · have hc := hcom ha
+    have ht : s1.texts = s1.tree.texts := by
+      rw [S.texts, hc, committedItems_texts]
+    rw [hunf, hc, presentEq_committed, ← ht]
+    have : (s1.texts[i]? == some (s.texts.getD i [])) = false := by simpa using hne
+    rw [this]; rfl
+  · have hc := hcom ha
+    have ht : s1.texts = s1.tree.texts := by
+      rw [S.texts, hc, committedItems_texts]
+    have hp : presentEq s1.items i (s.texts.getD i []) = true := by
+      rw [hc, presentEq_committed, ← ht]; simpa using heq
+    rw [hunf, hp, ← texts_length]
+    constructor
+    · intro h; simp [h]
+    · intro h; simp [h]
+
+/-- **Under `factory=True`** (`stepF true`) `ConfigList.insert` — with a `str` or a line object — is
+refused with `InvalidParameters` and changes nothing (known finding F10e: the new line is built
+without `all_lines`), after the index check and before the value check; `append_to_family`, which
+inserts through it, never changes the list either; every other call is what it is without the
+factory.  `stepF false` is `stepX`. -/
+theorem factory_insert_refused (s : S) (k : Int) (t : Str) (i : Nat) (ind : Int) (ai : Bool) (v : Arg) (op : OpX) :
+    stepF false s op = stepX s op ∧
+    stepF true s (.base (.insert k t)) = (s, .error (.base .invalidParameters)) ∧
+    stepF true s (.insertA (some k) (.str t)) = (s, .error (.base .invalidParameters)) ∧
+    stepF true s (.insertA (some k) (.line t)) = (s, .error (.base .invalidParameters)) ∧
+    stepF true s (.insertA none v) = (s, .error (.base .valueError)) ∧
+    stepF true s (.insertA (some k) .other) = (s, .error .typeError) ∧
+    (stepF true s (.base (.appendToFamily i t ind ai))).1 = s ∧
+    (stepF true s (.appendToFamilyL i t ind ai)).1 = s ∧
+    (stepF true s (.base (.appendToFamily i t ind ai))).2 ≠ .ok () := by
+  refine ⟨rfl, rfl, rfl, rfl, rfl, rfl, ?_, ?_, ?_⟩
+  · simp only [stepF, Bool.not_true, Bool.false_eq_true, if_false]; split <;> rfl
+  · simp only [stepF, Bool.not_true, Bool.false_eq_true, if_false]; split <;> rfl
+  · simp only [stepF, Bool.not_true, Bool.false_eq_true, if_false]; split <;> simp
+
+/-- **`classify_family_indent(arg)` called directly** on a line of indent `si`, indent width `w`:
+only a `str` is accepted (a line object too is `InvalidParameters`); a text whose indent is no
+multiple of the width is `NotImplementedError`; otherwise the answer `k` is the number of indent
+levels between the two: `k * w = indent(text) - si` whenever that difference is a multiple of the
+width (in general the quotient truncated towards zero). -/
+theorem classify_direct (w si : Nat) (t : Str) :
+    cfiArg w si (.line t) = .error (.base .invalidParameters) ∧
+    cfiArg w si .other = .error (.base .invalidParameters) ∧
+    (w = 0 ∨ indent t % w ≠ 0 → cfiArg w si (.str t) = .error (.base .notImplemented)) ∧
+    (w ≠ 0 → indent t % w = 0 →
+      cfiArg w si (.str t) = .ok (Int.tdiv ((indent t : Int) - si) w) ∧
+      (((w : Int) ∣ (indent t : Int) - si) → Int.tdiv ((indent t : Int) - si) w * w = (indent t : Int) - si)) := by
+  refine ⟨rfl, rfl, fun h => ?_, fun hw hm => ⟨?_, fun hdvd => ?_⟩⟩
+  · simp [cfiArg, cfi_none w si t h]
+  · simp [cfiArg, cfi_eq w si t hw hm]
+  · exact Int.tdiv_mul_cancel hdvd
+
+/-- **`replace_text` / `re_sub` on a line object that belongs to no configuration** change that
+object's text with the same functions as inside a list (`replaceText_spec`, `reSub_spec`). -/
+theorem detached_edit (t b a new : Str) :
+    detStep t (.replaceText b a) = pyReplace b a t ∧ detStep t (.reSub new) = new := ⟨rfl, rfl⟩
+
+/-! ### non-vacuity of this part -/
+
+/-- line-object payloads on the example config: `insert(1, <line>)`, `insert_after(<line>)` on
+line 1, a child appended to line 0 as a line object -/
+example : (stepX exOn (.insertA (some 1) (.line "x".toList))).1.texts
+      = ["interface Eth1".toList, "x".toList, " ip address 1.1.1.1".toList, "  secondary".toList,
+         " shutdown".toList, "interface Eth10".toList] ∧
+    (stepX exOn (.objInsAfterA 1 (.line " mtu 9".toList))).1.texts
+      = ["interface Eth1".toList, " ip address 1.1.1.1".toList, " mtu 9".toList, "  secondary".toList,
+         " shutdown".toList, "interface Eth10".toList] ∧
+    (stepX exOn (.appendToFamilyL 0 " mtu 9".toList (-1) false)).1.texts
+      = ["interface Eth1".toList, " ip address 1.1.1.1".toList, "  secondary".toList, " shutdown".toList,
+         " mtu 9".toList, "interface Eth10".toList] := by decide
+/-- a foreign line object with the text `Eth1` as pattern matches lines 0 and 4; with an empty text
+it matches every line, while the empty `str` pattern is refused -/
+example : (stepX exOn (.listInsBeforeA (.line "Eth1".toList) [true, false, false, false, true] (.str "!".toList))).1.texts
+      = ["!".toList, "interface Eth1".toList, " ip address 1.1.1.1".toList, "  secondary".toList,
+         " shutdown".toList, "!".toList, "interface Eth10".toList] ∧
+    ((stepX exOn (.listInsAfterA (.line []) [true, true, true, true, true] (.str "!".toList))).1.texts).length = 10 ∧
+    (stepX exOn (.listInsAfterA (.str []) [] (.str "!".toList))).2 = .error (.base .valueError) := ⟨by decide, by decide, rfl⟩
+/-- `listInsert_line_payload` / `listInsert_blank_line_dropped` under `ignore_blank_lines`: the blank
+`str` is refused, the blank line object is accepted and dropped by the commit -/
+example : (stepX exIb (.listInsBeforeA (.str "Eth".toList) [true, false, false, false, true] (.str " ".toList))).2
+      = .error (.base .invalidParameters) ∧
+    (stepX exIb (.listInsBeforeA (.str "Eth".toList) [true, false, false, false, true] (.line " ".toList))).2 = .ok () ∧
+    (stepX exIb (.listInsBeforeA (.str "Eth".toList) [true, false, false, false, true] (.line " ".toList))).1.texts
+      = exIb.texts := ⟨rfl, rfl, by decide⟩
+example : isBlank " ".toList = true ∧ isBannerStart " ".toList = false ∧ isMacroStart " ".toList = false := by decide
+/-- `malformed_rejected`: the hypothesis `posOf = some p` holds for every line of a committed state -/
+example : posOf exOn.items 3 = some 3 ∧
+    stepX exOn (.objInsBeforeA 3 .other) = (exOn, .error (.base .notImplemented)) := ⟨by decide, rfl⟩
+/-- `remove` of line 1 takes its child with it -/
+example : (stepX exOn (.remove (.member 1))).1.texts
+      = ["interface Eth1".toList, " shutdown".toList, "interface Eth10".toList] := by decide
+/-- `deleteTwice_spec`, all four outcomes: on `a, a` the second line moves to number 0 and is deleted
+by the second call; on `a, _b, a` the stale child number 1 is past the end (`IndexError`); a handle
+whose place is taken by another text, and every handle with auto-commit off, is refused -/
+example :
+    (stepX (init exCfg true 1 ["a".toList, "a".toList]) (.deleteTwice 0)).1.texts = [] ∧
+    (stepX (init exCfg true 1 ["a".toList, "a".toList]) (.deleteTwice 0)).2 = .ok () ∧
+    (stepX (init exCfg true 1 ["a".toList, " b".toList, "a".toList]) (.deleteTwice 0)).2
+      = .error (.base .indexError) ∧
+    (stepX (init exCfg true 1 ["a".toList, " b".toList, "a".toList]) (.deleteTwice 0)).1.texts = ["a".toList] ∧
+    (stepX exOn (.deleteTwice 1)).2 = .error (.base .doesNotExist) ∧
+    (stepX (init exCfg false 1 ["a".toList, "a".toList]) (.deleteTwice 0)).2 = .error (.base .doesNotExist) ∧
+    (stepX (init exCfg false 1 ["a".toList, "a".toList]) (.deleteTwice 0)).1.texts = ["a".toList] :=
+  ⟨by decide, rfl, rfl, by decide, rfl, rfl, by decide⟩
+example : FreshInv exOn ∧ exOn.dirty = false := ⟨init_fresh _ _ _ _, rfl⟩
+/-- `classify_direct`: from a line of indent 1, width 1: three levels deeper, one level shallower;
+width 2: an odd indent is refused, 4 against 2 is one level -/
+example : cfiArg 1 1 (.str "    x".toList) = .ok 3 ∧ cfiArg 1 1 (.str "x".toList) = .ok (-1) ∧
+    cfiArg 2 2 (.str "   x".toList) = .error (.base .notImplemented) ∧ cfiArg 2 2 (.str "    x".toList) = .ok 1 ∧
+    cfiArg 1 1 (.line "x".toList) = .error (.base .invalidParameters) := ⟨rfl, rfl, rfl, rfl, rfl⟩
 
 end Ccp.C06
